@@ -1,7 +1,7 @@
 """Which jobs and extra checks decide which property (the sidecar's table of contents)."""
 import importlib
 
-JOB_MODULES = ["contracts.jobs_basic", "contracts.jobs_multi", "contracts.jobs_classes"]
+JOB_MODULES = ["contracts.jobs_basic", "contracts.jobs_multi", "contracts.jobs_classes", "contracts.jobs_context"]
 CANARY = "contracts.jobs_canary"
 
 _cache = {}
@@ -48,6 +48,16 @@ PROPS = {
                 explanation="event-match on requests: pulls, end detections and callable invocations occur in the reference's order between any two yields"),
     "C06": dict(level="proof", canaries=[(CANARY, "canary:filter-yields-before-test")], trusted_base=TB_COMMON,
                 explanation="a fault answered at every pull/call/op: same events up to the fault, the very same exception object propagates"),
+    "C13": dict(level="proof", canaries=[(CANARY, "canary:filter-yields-before-test")],
+                trusted_base=TB_COMMON + ["reference = contextlib._AsyncGeneratorContextManager of the installed CPython, extracted mechanically on demand (tools/extract_refs.py, drift-checked on every run) and rendered synchronous by fixed textual rules",
+                                          "async-generator protocol A3: the generator's answers to anext/athrow/aclose range over {yield, stop, raise the same object, raise a new exception (same or other class), RuntimeError caused by the thrown exception}; a Stop(Async)Iteration never leaves a generator as such (PEP 479/525)"],
+                extra_names=["drift"],
+                explanation="loop-free, hence complete case analysis: __aenter__/__aexit__ of the real class against the extracted CPython methods over every abstract generator answer, for the 8 block outcomes; GeneratorExit rows specified from the property (closed, same object propagates)"),
+    "C14": dict(level="proof", canaries=[(CANARY, "canary:filter-yields-before-test")],
+                trusted_base=TB_COMMON + ["specification contracts/refs/ref_exitstack.py = fold of the with-statement semantics (language reference 8.5) over the registered exits; cross-checked natively against contextlib.AsyncExitStack up to a bound",
+                                          "deque/reversed/partial contracts of the interpreter"],
+                bounded_note=[{"what": "stack size", "bound": "registrations enumerated up to 2 (quick) / 3 (thorough) entries of every kind; the unwinding loop is unrolled for these sizes (no loop invariant in the stack size); exit behaviours, block outcome and the history {unwind, aclose, pop_all, unwind again} are explored exhaustively and symbolically"}],
+                explanation="every history register* ; (leave|aclose|pop_all)* of the real ExitStack against the nested-with specification: same exits called with the same in-flight exception in the same order, same overall outcome, each exit exactly once"),
     "C16": dict(level="proof", canaries=[(CANARY, "canary:filter-yields-before-test")], trusted_base=TB_COMMON + ["reference class groupby/_grouper = transcription of CPython's groupbyobject/_grouperobject (validated differentially)", "one stale group handle represents all stale handles (their behaviour depends only on not being the current group)"],
                 explanation="data structure against abstract view: GroupBy/_Grouper operations vs the transcribed itertools.groupby under an arbitrary history of {advance groupby, advance current group, advance stale group}; the consumer loop is a cut point, so histories and inputs are unbounded"),
     "C18": dict(level="proof", canaries=[(CANARY, "canary:enumerate-leaks-source")], trusted_base=TB_COMMON,
